@@ -386,6 +386,11 @@ class Worker:
                         finally:
                             del(tb)
                     completed += 1
+                    if _should_have_exited[0]:
+                        # the termination-signal handler ran while the task
+                        # was running and the task swallowed the SystemExit:
+                        # honour the signal now, do not take another job.
+                        raise SystemExit()
                     if max_memory_per_child > 0:
                         used_kb = mem_rss()
                         if used_kb <= 0:
@@ -430,6 +435,9 @@ class Worker:
 
         if self.initializer is not None:
             self.initializer(*self.initargs)
+
+        # a flag inherited from the parent says nothing about this process.
+        _should_have_exited[0] = False
 
         # Make sure all exiting signals call finally: blocks.
         # This is important for the semaphore to be released.
